@@ -1532,3 +1532,431 @@ Proof.
     intros x Hx Hty. destruct (D x Hx Hty) as (P & Q & R & S). rewrite <- Bi.
     repeat split; auto. right. split; [lia|]. rewrite Ct by congruence. rewrite Bs. exact A.
 Qed.
+
+(* ================================================================== *)
+(* 11. the general frame: commit index monotone, read states kept,     *)
+(*     pending reads kept or dropped as a whole                        *)
+(* ================================================================== *)
+
+Definition fx (r r' : raft) : Prop :=
+  committed (r_log r) <= committed (r_log r') /\
+  r_read_states r' = r_read_states r /\
+  (r_read_only r' = r_read_only r \/ r_read_only r' = ro_new (ro_option (r_read_only r))) /\
+  r_id r' = r_id r /\
+  rir (r_msgs r') = rir (r_msgs r).
+
+Lemma fx_refl r : fx r r.
+Proof. unfold fx. repeat split; auto. lia. Qed.
+
+Lemma fx_trans a b c : fx a b -> fx b c -> fx a c.
+Proof.
+  intros (A1 & A2 & A3 & A4 & A5) (B1 & B2 & B3 & B4 & B5). unfold fx.
+  split; [lia|]. split; [congruence|]. split; [|split; congruence].
+  destruct A3 as [A3|A3], B3 as [B3|B3]; rewrite B3, ?A3; auto.
+Qed.
+
+Lemma lf_fx r r' : lf r r' -> fx r r'.
+Proof.
+  intros (A & B & C0 & _ & D & _ & _ & _ & E). unfold fx. rewrite A. repeat split; auto. lia.
+Qed.
+
+Lemma commit_to_le l tc l' : RaftLog.commit_to l tc = Ok l' -> committed l <= committed l'.
+Proof.
+  unfold RaftLog.commit_to. intros H. destruct (tc <=? committed l) eqn:E; [inversion H; lia|].
+  destruct (last_index l <? tc); [discriminate|]. inversion H; subst. cbn. lia.
+Qed.
+
+Lemma log_maybe_commit_le l mi t l' b :
+  RaftLog.maybe_commit l mi t = Ok (l', b) -> committed l <= committed l'.
+Proof.
+  unfold RaftLog.maybe_commit. intros H.
+  destruct (committed l <? mi); [|inversion H; lia].
+  inv_bind H. destruct (term_ok_eq x t); [|inversion H; lia].
+  inv_bind H. inversion H; subst. eapply commit_to_le; eassumption.
+Qed.
+
+Lemma set_log_fx r l' : committed (r_log r) <= committed l' -> fx r (r <| r_log := l' |>).
+Proof. intros H. unfold fx. cbn. repeat split; auto. Qed.
+
+Ltac fx_solve := unfold fx; cbn; repeat split; auto; try lia.
+
+Lemma maybe_commit_fx r r' b : maybe_commit r = Ok (r', b) -> fx r r'.
+Proof.
+  unfold maybe_commit. intros H. inv_bind H. destruct x as [l' b'].
+  apply log_maybe_commit_le in Hx.
+  destruct b'.
+  - destruct (get_pr r (r_id r)); [|discriminate]. inversion H; subst. fx_solve.
+  - inversion H; subst. fx_solve.
+Qed.
+
+Lemma reset_fx r t r' : reset r t = Ok r' -> fx r r'.
+Proof.
+  intros H. pose proof (reset_drops_reads _ _ _ H) as [A B].
+  apply reset_fields in H. destruct H as (_ & _ & Hl & _ & Hi & _ & _ & Hm & _).
+  unfold fx. rewrite Hl, Hm. repeat split; auto. lia.
+Qed.
+
+Lemma become_follower_fx r t l r' : become_follower r t l = Ok r' -> fx r r'.
+Proof.
+  unfold become_follower. intros H. inv_bind H. inversion H; subst.
+  apply reset_fx in Hx. destruct Hx as (A & B & C0 & D & E). unfold fx. cbn. repeat split; auto.
+Qed.
+
+Lemma become_candidate_fx r r' : become_candidate r = Ok r' -> fx r r'.
+Proof.
+  unfold become_candidate. intros H. destruct (is_leader r); [discriminate|].
+  inv_bind H. inversion H; subst.
+  apply reset_fx in Hx. destruct Hx as (A & B & C0 & D & E). unfold fx. cbn. repeat split; auto.
+Qed.
+
+Lemma become_pre_candidate_fx r r' : become_pre_candidate r = Ok r' -> fx r r'.
+Proof.
+  unfold become_pre_candidate. intros H. destruct (is_leader r); [discriminate|].
+  inversion H; subst. fx_solve.
+Qed.
+
+Lemma become_leader_fx r r' : become_leader r = Ok r' -> fx r r'.
+Proof.
+  intros H. pose proof (become_leader_drops_reads _ _ H) as [A B].
+  unfold become_leader in H. destruct (role_eqb (r_state r) Follower); [discriminate|].
+  inv_bind H. apply reset_fields in Hx. destruct Hx as (_ & _ & Hl & _ & Hi & _ & _ & Hm & _).
+  cif H; [discriminate|].
+  match type of H with match ?g with _ => _ end = _ => destruct g end; [|discriminate].
+  inv_bind H. destruct x0 as [r6 ok]. destruct ok; [|discriminate]. inversion H; subst.
+  apply append_entry_lite in Hx. destruct Hx as (_ & _ & Hm6 & Hi6 & Hc6). cbn in Hm6, Hi6, Hc6.
+  unfold fx. rewrite Hc6, Hl, Hm6, Hm, Hi6, Hi. repeat split; auto. lia.
+Qed.
+
+Lemma send_vote_requests_lf ids : forall r vm t cm ct tr r',
+  (vm =? MsgReadIndexResp) = false ->
+  send_vote_requests ids r vm t cm ct tr = Ok r' -> lf r r'.
+Proof.
+  induction ids as [|id rest IH]; intros r vm t cm ct tr r' Hvm H.
+  { inversion H; subst. apply lf_refl. }
+  cbn [send_vote_requests] in H. destruct (id =? r_id r). { eapply IH; eassumption. }
+  inv_bind H. inv_bind H. eapply lf_trans; [|eapply IH; eassumption].
+  eapply send_lf; [eassumption|]. destruct tr; unfold is_rir; cbn; exact Hvm.
+Qed.
+
+Lemma poll_gen_fx rc r from v r' res :
+  poll_gen rc r from v = Ok (r', res) ->
+  (forall ra ra', rc ra = Ok ra' -> fx ra ra') -> fx r r'.
+Proof.
+  unfold poll_gen. intros H Hrc.
+  set (r0 := r <| r_prs := (r_prs r) <| t_votes := Quorum.record_vote (t_votes (r_prs r)) from v |> |>) in *.
+  assert (H0 : fx r r0) by (unfold r0; fx_solve).
+  eapply fx_trans; [exact H0|].
+  destruct (Quorum.tracker_vote_result _ _ _).
+  - inversion H; subst. apply fx_refl.
+  - inv_bind H. inversion H; subst. eapply become_follower_fx; eassumption.
+  - destruct (role_eqb (r_state r0) PreCandidate).
+    + inv_bind H. inversion H; subst. eapply Hrc; eassumption.
+    + inv_bind H. inv_bind H. inversion H; subst.
+      eapply fx_trans; [eapply become_leader_fx; eassumption|].
+      apply lf_fx. eapply bcast_append_lf; eassumption.
+Qed.
+
+Lemma campaign_real_fx tr r r' : campaign_real tr r = Ok r' -> fx r r'.
+Proof.
+  unfold campaign_real. intros H. inv_bind H. apply become_candidate_fx in Hx.
+  inv_bind H. destruct x0 as [r2 res].
+  apply poll_gen_fx in Hx0; [|intros ra ra' Hp; discriminate].
+  eapply fx_trans; [exact Hx|]. eapply fx_trans; [exact Hx0|].
+  destruct res.
+  - inv_bind H. apply lf_fx. eapply send_vote_requests_lf; [|eassumption]. reflexivity.
+  - inv_bind H. apply lf_fx. eapply send_vote_requests_lf; [|eassumption]. reflexivity.
+  - inversion H; subst. apply fx_refl.
+Qed.
+
+Lemma campaign_pre_fx r r' : campaign_pre r = Ok r' -> fx r r'.
+Proof.
+  unfold campaign_pre, poll. intros H. inv_bind H. apply become_pre_candidate_fx in Hx.
+  inv_bind H. destruct x0 as [r2 res].
+  apply poll_gen_fx in Hx0; [|intros ra ra'; apply campaign_real_fx].
+  eapply fx_trans; [exact Hx|]. eapply fx_trans; [exact Hx0|].
+  destruct res.
+  - inv_bind H. apply lf_fx. eapply send_vote_requests_lf; [|eassumption]. reflexivity.
+  - inv_bind H. apply lf_fx. eapply send_vote_requests_lf; [|eassumption]. reflexivity.
+  - inversion H; subst. apply fx_refl.
+Qed.
+
+Lemma hup_fx r tl r' : hup r tl = Ok r' -> fx r r'.
+Proof.
+  intros H. apply hup_spec in H.
+  destruct H as [[_ ->]|[(_ & _ & ->)|(_ & _ & Hc)]]; try apply fx_refl.
+  unfold hup_campaign in Hc. destruct tl; [eapply campaign_real_fx; eassumption|].
+  destruct (r_pre_vote r); [eapply campaign_pre_fx|eapply campaign_real_fx]; eassumption.
+Qed.
+
+Lemma poll_fx r from v r' res : poll r from v = Ok (r', res) -> fx r r'.
+Proof. unfold poll. intros H. eapply poll_gen_fx; [exact H|]. intros ra ra'. apply campaign_real_fx. Qed.
+
+Lemma maybe_commit_by_vote_fx r m r' : maybe_commit_by_vote r m = Ok r' -> fx r r'.
+Proof.
+  intros H. apply maybe_commit_by_vote_spec in H.
+  destruct H as [-> |(l' & b & _ & _ & _ & _ & Hmc & [-> |(_ & _ & _ & Hbf)])]; [apply fx_refl| |].
+  - apply set_log_fx. eapply log_maybe_commit_le; eassumption.
+  - eapply fx_trans; [apply set_log_fx; eapply log_maybe_commit_le; eassumption|].
+    eapply become_follower_fx; eassumption.
+Qed.
+
+Lemma log_append_committed l ents x : log_append l ents = Ok x -> committed (fst x) = committed l.
+Proof.
+  intros Hl. unfold log_append in Hl. destruct ents; [inversion Hl; reflexivity|].
+  destruct (e_index e =? 0); [discriminate|]. destruct (_ <? _); [discriminate|].
+  inv_bind Hl. inversion Hl; subst. reflexivity.
+Qed.
+
+Lemma maybe_append_le l i t cmt ents l' res :
+  maybe_append l i t cmt ents = Ok (l', res) -> committed l <= committed l'.
+Proof.
+  unfold maybe_append. intros H. inv_bind H. destruct (negb x); [inversion H; lia|].
+  inv_bind H. inv_bind H.
+  assert (H1 : committed x1 = committed l).
+  { clear H. cif Hx1; [inversion Hx1; reflexivity|].
+    cif Hx1; [discriminate|]. cif Hx1; [discriminate|].
+    cif Hx1; [discriminate|]. cif Hx1; [discriminate|].
+    inv_bind Hx1. apply log_append_committed in Hx2. inversion Hx1; subst.
+    match goal with |- committed (if ?c then _ else _) = _ => destruct c end; cbn; exact Hx2. }
+  destruct (u64_max <? _); [discriminate|]. inv_bind H. inversion H; subst.
+  apply commit_to_le in Hx2. lia.
+Qed.
+
+Lemma handle_append_entries_fx r m r' : handle_append_entries r m = Ok r' -> fx r r'.
+Proof.
+  unfold handle_append_entries. intros H.
+  destruct (negb (r_pending_request_snapshot r =? INVALID_INDEX)).
+  { apply lf_fx. eapply send_request_snapshot_lf; exact H. }
+  destruct (m_index m <? committed (r_log r)).
+  { apply lf_fx. eapply send_lf; [exact H|reflexivity]. }
+  inv_bind H. destruct x as [l' res]. apply maybe_append_le in Hx.
+  eapply fx_trans; [apply set_log_fx; exact Hx|].
+  destruct res as [[a b]|].
+  - apply lf_fx. eapply send_lf; [exact H|reflexivity].
+  - inv_bind H. destruct x as [hi [ht|]]; [|discriminate].
+    apply lf_fx. eapply send_lf; [exact H|reflexivity].
+Qed.
+
+Lemma handle_heartbeat_fx r m r' : handle_heartbeat r m = Ok r' -> fx r r'.
+Proof.
+  unfold handle_heartbeat. intros H. inv_bind H. apply commit_to_le in Hx.
+  eapply fx_trans; [apply set_log_fx; exact Hx|].
+  cif H.
+  - apply lf_fx. eapply send_request_snapshot_lf; exact H.
+  - apply lf_fx. eapply send_lf; [exact H|reflexivity].
+Qed.
+
+Lemma restore_fx r s r' b : restore r s = Ok (r', b) -> fx r r'.
+Proof.
+  unfold restore. intros H.
+  destruct (s_index s <? committed (r_log r)) eqn:Ec; [inversion H; apply fx_refl|].
+  apply N.ltb_ge in Ec.
+  destruct (negb (role_eqb (r_state r) Follower)) eqn:Er.
+  { inv_bind H. inversion H; subst. eapply become_follower_fx; eassumption. }
+  cif H; [inversion H; apply fx_refl|].
+  inv_bind H.
+  cif H.
+  { inv_bind H. inversion H; subst. apply set_log_fx. eapply commit_to_le; eassumption. }
+  inv_bind H.
+  assert (Hl : committed (r_log r) <= committed x0).
+  { unfold log_restore in Hx0. destruct (s_index s <? committed (r_log r)); [discriminate|].
+    inversion Hx0; subst. cbn. exact Ec. }
+  destruct (ConfChange.restore empty_tracker (s_cs s)) as [[c' ids']|e]; [|discriminate].
+  inv_bind H. destruct x1 as [r1 new_cs].
+  destruct (negb (conf_state_eq (s_cs s) new_cs)); [discriminate|].
+  destruct (get_pr r1 (r_id r1)); [|discriminate].
+  destruct (next_idx p =? 0); [discriminate|]. inversion H; subst. clear H.
+  rewrite post_conf_change_nonleader in Hx1.
+  2:{ unfold is_leader. cbn. apply negb_false_iff in Er. apply role_eqb_follower in Er. rewrite Er. reflexivity. }
+  inversion Hx1; subst. unfold fx. cbn. repeat split; auto.
+Qed.
+
+Lemma handle_snapshot_fx r m r' : handle_snapshot r m = Ok r' -> fx r r'.
+Proof.
+  unfold handle_snapshot. intros H. inv_bind H. destruct x as [r1 ok].
+  apply restore_fx in Hx. eapply fx_trans; [exact Hx|].
+  destruct ok; apply lf_fx; (eapply send_lf; [exact H|reflexivity]).
+Qed.
+
+(* --- leader-side handlers --- *)
+
+Lemma handle_append_response_fx r m r' : handle_append_response r m = Ok r' -> fx r r'.
+Proof.
+  unfold handle_append_response. intros H. inv_bind H. clear Hx.
+  destruct (get_pr r (m_from m)) as [pr|]; [|inversion H; apply fx_refl].
+  destruct (m_reject m).
+  { destruct (maybe_decr_to _ _ _ _) as [pr1 dec]. destruct dec.
+    - apply lf_fx. eapply lf_trans; [apply put_pr_lf|eapply send_append_to_lf; exact H].
+    - inversion H; subst. apply lf_fx. apply put_pr_lf. }
+  destruct (maybe_update _ _) as [pr1 upd]. destruct upd; cbn [negb] in H.
+  2:{ inversion H; subst. apply lf_fx. apply put_pr_lf. }
+  inv_bind H. clear Hx. inv_bind H. destruct x1 as [r1 cmt].
+  apply maybe_commit_fx in Hx. inv_bind H. inv_bind H.
+  assert (H01 : fx r r1) by (eapply fx_trans; [apply lf_fx; apply put_pr_lf|exact Hx]).
+  assert (H12 : fx r1 x1).
+  { destruct cmt.
+    - destruct (should_bcast_commit r1); [apply lf_fx; eapply bcast_append_lf; eassumption|].
+      inversion Hx0; subst; apply fx_refl.
+    - destruct (is_paused _); [apply lf_fx; eapply send_append_to_lf; eassumption|].
+      inversion Hx0; subst; apply fx_refl. }
+  apply send_append_aggressively_lf in Hx1. apply lf_fx in Hx1.
+  assert (H03 : fx r x2) by (eapply fx_trans; [exact H01|eapply fx_trans; eassumption]).
+  eapply fx_trans; [exact H03|].
+  destruct (r_lead_transferee x2); [|inversion H; subst; apply fx_refl].
+  destruct (n =? m_from m); [|inversion H; subst; apply fx_refl].
+  destruct (get_pr x2 (m_from m)); [|discriminate].
+  destruct (matched p =? last_index (r_log x2)); [apply lf_fx; eapply send_timeout_now_lf; exact H|].
+  inversion H; subst; apply fx_refl.
+Qed.
+
+Lemma handle_transfer_leader_lf r m r' : handle_transfer_leader r m = Ok r' -> lf r r'.
+Proof.
+  unfold handle_transfer_leader. intros H.
+  destruct (get_pr r (m_from m)); [|inversion H; apply lf_refl].
+  destruct (IdSet.mem (m_from m) (learners (conf_of r))); [inversion H; apply lf_refl|].
+  assert (Hcont : forall ra, lf r ra ->
+    (if m_from m =? r_id ra then Ok ra else
+       match get_pr (ra <| r_election_elapsed := 0 |> <| r_lead_transferee := Some (m_from m) |>) (m_from m) with
+       | None => Panic site_pr_unwrap
+       | Some pr =>
+           if matched pr =? last_index (r_log (ra <| r_election_elapsed := 0 |> <| r_lead_transferee := Some (m_from m) |>))
+           then send_timeout_now (ra <| r_election_elapsed := 0 |> <| r_lead_transferee := Some (m_from m) |>) (m_from m)
+           else
+             y <- maybe_send_append (ra <| r_election_elapsed := 0 |> <| r_lead_transferee := Some (m_from m) |>) (m_from m) pr true ;;
+             let '(r', pr', _) := y in Ok (put_pr r' (m_from m) pr')
+       end) = Ok r' -> lf r r').
+  { intros ra Hra Hc. destruct (m_from m =? r_id ra). { inversion Hc; subst; exact Hra. }
+    eapply lf_trans; [exact Hra|].
+    assert (Hset : lf ra (ra <| r_election_elapsed := 0 |> <| r_lead_transferee := Some (m_from m) |>))
+      by lf_solve.
+    eapply lf_trans; [exact Hset|].
+    match type of Hc with match ?g with _ => _ end = _ => destruct g end; [|discriminate].
+    cif Hc.
+    - eapply send_timeout_now_lf; exact Hc.
+    - inv_bind Hc. destruct x as [[rb pb] bb]. inversion Hc; subst.
+      eapply lf_trans; [eapply maybe_send_append_lf; eassumption|apply put_pr_lf]. }
+  destruct (r_lead_transferee r) as [last|].
+  - destruct (last =? m_from m); [inversion H; apply lf_refl|].
+    eapply Hcont; [|exact H]. lf_solve.
+  - eapply Hcont; [apply lf_refl|exact H].
+Qed.
+
+Lemma handle_snapshot_status_lf r m r' : handle_snapshot_status r m = Ok r' -> lf r r'.
+Proof.
+  unfold handle_snapshot_status. intros H.
+  destruct (get_pr r (m_from m)); [|inversion H; apply lf_refl].
+  destruct (negb _); inversion H; subst; [apply lf_refl|apply put_pr_lf].
+Qed.
+
+Lemma handle_unreachable_lf r m r' : handle_unreachable r m = Ok r' -> lf r r'.
+Proof.
+  unfold handle_unreachable. intros H.
+  destruct (get_pr r (m_from m)); inversion H; subst; [|apply lf_refl].
+  destruct (pstate_eqb _ _); [apply put_pr_lf|apply lf_refl].
+Qed.
+
+Lemma rir_hb_list r ctx ids : rir (hb_list r ctx ids) = [].
+Proof.
+  induction ids as [|id rest IH]; [reflexivity|].
+  cbn [hb_list flat_map]. fold (hb_list r ctx rest). rewrite rir_app, IH, app_nil_r.
+  destruct (id =? r_id r); [reflexivity|]. destruct (get_pr r id); [|reflexivity].
+  unfold hb_msg. destruct ctx; reflexivity.
+Qed.
+
+Lemma bcast_heartbeat_with_ctx_lf r ctx r' : bcast_heartbeat_with_ctx r ctx = Ok r' -> lf r r'.
+Proof.
+  intros H. apply bcast_heartbeat_with_ctx_exact in H. subst r'. unfold lf. cbn.
+  repeat split. rewrite rir_app, rir_hb_list, app_nil_r. reflexivity.
+Qed.
+
+(* every leader message type other than the two read-index ones *)
+Lemma step_leader_other_fx r m r' c :
+  (m_type m =? MsgReadIndex) = false -> (m_type m =? MsgHeartbeatResponse) = false ->
+  step_leader r m = Ok (r', c) -> fx r r'.
+Proof.
+  intros Hnr Hnh H. unfold step_leader in H. rewrite Hnr, Hnh in H.
+  destruct (m_type m =? MsgBeat).
+  { inv_bind H. inversion H; subst. apply lf_fx. eapply bcast_heartbeat_with_ctx_lf; exact Hx. }
+  destruct (m_type m =? MsgCheckQuorum).
+  { destruct (quorum_recently_active (r_prs r) (r_id r)) as [prs' active] eqn:Eq.
+    assert (Hprs : fx r (r <| r_prs := prs' |>)) by fx_solve.
+    destruct active; cbn [negb] in H.
+    - inversion H; subst. exact Hprs.
+    - inv_bind H. inversion H; subst. eapply fx_trans; [exact Hprs|].
+      eapply become_follower_fx; eassumption. }
+  destruct (m_type m =? MsgPropose).
+  { destruct (m_entries m); [discriminate|].
+    destruct (get_pr r (r_id r)); [|inversion H; subst; apply fx_refl].
+    destruct (r_lead_transferee r); [inversion H; subst; apply fx_refl|].
+    dfilter H. apply filter_frame in F.
+    assert (H1 : fx r a) by (rewrite F; fx_solve).
+    destruct c0; cbn [negb] in H; [|inversion H; subst; exact H1].
+    inv_bind H. destruct x as [r2 appended]. apply append_entry_lite in Hx.
+    destruct Hx as (A & B & C0 & D & E).
+    assert (H2 : fx a r2) by (unfold fx; rewrite A, B, C0, D, E; repeat split; auto; lia).
+    destruct appended; cbn [negb] in H.
+    - inv_bind H. inversion H; subst. eapply fx_trans; [exact H1|]. eapply fx_trans; [exact H2|].
+      apply lf_fx. eapply bcast_append_lf; eassumption.
+    - inversion H; subst. eapply fx_trans; eassumption. }
+  destruct (m_type m =? MsgAppendResponse).
+  { inv_bind H. inversion H; subst. eapply handle_append_response_fx; eassumption. }
+  destruct (m_type m =? MsgSnapStatus).
+  { inv_bind H. inversion H; subst. apply lf_fx. eapply handle_snapshot_status_lf; eassumption. }
+  destruct (m_type m =? MsgUnreachable).
+  { inv_bind H. inversion H; subst. apply lf_fx. eapply handle_unreachable_lf; eassumption. }
+  destruct (m_type m =? MsgTransferLeader).
+  { inv_bind H. inversion H; subst. apply lf_fx. eapply handle_transfer_leader_lf; eassumption. }
+  inversion H; subst. apply fx_refl.
+Qed.
+
+Lemma step_candidate_fx r m r' c : step_candidate r m = Ok (r', c) -> fx r r'.
+Proof.
+  unfold step_candidate. intros H.
+  destruct (m_type m =? MsgPropose). { inversion H; subst. apply fx_refl. }
+  cif H.
+  { destruct (negb (r_term r =? m_term m)); [discriminate|].
+    inv_bind H. apply become_follower_fx in Hx. inv_bind H. inversion H; subst.
+    eapply fx_trans; [exact Hx|].
+    destruct (m_type m =? MsgAppend); [eapply handle_append_entries_fx; eassumption|].
+    destruct (m_type m =? MsgHeartbeat); [eapply handle_heartbeat_fx; eassumption|].
+    eapply handle_snapshot_fx; eassumption. }
+  cif H.
+  2:{ inversion H; subst. apply fx_refl. }
+  cif H.
+  { inversion H; subst. apply fx_refl. }
+  inv_bind H. destruct x as [r1 res]. inv_bind H. inversion H; subst. cbn [fst] in Hx0.
+  eapply fx_trans; [eapply poll_fx; eassumption|eapply maybe_commit_by_vote_fx; eassumption].
+Qed.
+
+Lemma step_follower_other_fx r m r' c :
+  (m_type m =? MsgReadIndexResp) = false -> step_follower r m = Ok (r', c) -> fx r r'.
+Proof.
+  unfold step_follower. intros Hnr H. rewrite Hnr in H.
+  assert (Hset : fx r (r <| r_election_elapsed := 0 |> <| r_leader_id := m_from m |>)) by fx_solve.
+  destruct (m_type m =? MsgPropose) eqn:E1.
+  { destruct (r_leader_id r =? INVALID_ID); [inversion H; subst; apply fx_refl|].
+    destruct (r_disable_proposal_forwarding r); [inversion H; subst; apply fx_refl|].
+    inv_bind H. inversion H; subst. apply lf_fx. eapply send_lf; [eassumption|].
+    unfold is_rir. cbn. exact Hnr. }
+  destruct (m_type m =? MsgAppend).
+  { inv_bind H. inversion H; subst. eapply fx_trans; [exact Hset|].
+    eapply handle_append_entries_fx; eassumption. }
+  destruct (m_type m =? MsgHeartbeat).
+  { inv_bind H. inversion H; subst. eapply fx_trans; [exact Hset|].
+    eapply handle_heartbeat_fx; eassumption. }
+  destruct (m_type m =? MsgSnapshot).
+  { inv_bind H. inversion H; subst. eapply fx_trans; [exact Hset|].
+    eapply handle_snapshot_fx; eassumption. }
+  destruct (m_type m =? MsgTransferLeader).
+  { destruct (r_leader_id r =? INVALID_ID); [inversion H; subst; apply fx_refl|].
+    inv_bind H. inversion H; subst. apply lf_fx. eapply send_lf; [eassumption|].
+    unfold is_rir. cbn. exact Hnr. }
+  destruct (m_type m =? MsgTimeoutNow).
+  { destruct (r_promotable r); [|inversion H; subst; apply fx_refl].
+    inv_bind H. inversion H; subst. eapply hup_fx; eassumption. }
+  destruct (m_type m =? MsgReadIndex).
+  { destruct (r_leader_id r =? INVALID_ID); [inversion H; subst; apply fx_refl|].
+    inv_bind H. inversion H; subst. apply lf_fx. eapply send_lf; [eassumption|].
+    unfold is_rir. cbn. exact Hnr. }
+  inversion H; subst. apply fx_refl.
+Qed.
